@@ -321,6 +321,20 @@ class ReShim:
         if not isinstance(repl, str) or '\\' in repl or count != 0:
             raise Unsupported('re.sub with a non-constant replacement on a symbolic string')
         tree = _parse(pattern, flags)
+        # fast path (same semantics): one literal repeated one-or-more times, e.g. r' +'
+        if len(tree) == 1 and tree[0][0] is C.MAX_REPEAT and tree[0][1][0] == 1 and tree[0][1][1] is MAXREP and len(tree[0][1][2]) == 1 \
+                and tree[0][1][2][0][0] is C.LITERAL:
+            lit = chr(tree[0][1][2][0][1])
+            out, run = [], False
+            for c in s.ch:
+                if bool(c == lit):
+                    if not run:
+                        out += [K(x) for x in repl]
+                    run = True
+                else:
+                    out.append(c)
+                    run = False
+            return SymStr(out)
         chars = [c.c for c in s.ch]
         om = _OrderedMatcher(chars)
         out = []
